@@ -373,6 +373,54 @@ fn claims_carrier<V: Full>(prop: &mut Property) {
     );
 }
 
+/// long footers and assertions (the payload-length sweeps keep them short): every size class up to 64 KiB around the
+/// boundaries where a limit, a buffer or a length unit could sit
+fn long_footers<V: crate::backends::Full>(prop: &mut Property) {
+    let name = V::NAME;
+    let lens: Vec<usize> = vec![255, 256, 1023, 1024, 2047, 2048, 3071, 3072, 4095, 4096, 4097, 6143, 6144, 6145, 8191, 8192, 8193, 12288, 16383, 16384, 16385, 32768, 65535, 65536];
+    let n = (lens.len() * 4) as u64;
+    prop.subs.push(
+        Sub::new(format!("{name}/long-footers"), n, format!("{{local, public}} x {{footer, assertion}} of lengths {lens:?}: seal, to_string, parse, unseal: claims and footer come back"), move |idx, describe| {
+            let local = idx % 2 == 0;
+            let footer_long = (idx / 2) % 2 == 0;
+            let len = lens[(idx / 4) as usize];
+            let mut o = Outcome::new();
+            if describe {
+                o.sample = Some(json!({"backend": name, "local": local, "long_piece": if footer_long { "footer" } else { "assertion" }, "len": len}));
+            }
+            if !footer_long && !V::assertions() {
+                o.nontrivial = 0;
+                o.class("n/a");
+                return o;
+            }
+            let ks = keys::keyset::<V>(false, 0);
+            let lk = keys::local::<V>(&ks.locals[2].bytes);
+            let sk = keys::secret::<V>(&ks.secrets[0].bytes);
+            let pk = sk.public_key();
+            let msg = ops::content(33, 7);
+            let long = ops::content(len, 9);
+            let (ft, ad): (Vec<u8>, Vec<u8>) = if footer_long { (long, if V::assertions() { b"a".to_vec() } else { vec![] }) } else { (b"f".to_vec(), long) };
+            let r = subject(|| -> Result<bool, paseto_core::PasetoError> {
+                if local {
+                    let t = ops::enc::<V>(&lk, &msg, Some(&ft), &ad, &Nonce::Lib)?;
+                    let (c, f) = ops::dec::<V>(&lk, &t, &ad)?;
+                    Ok(c == msg && f == ft)
+                } else {
+                    let t = ops::sign::<V>(&sk, &msg, Some(&ft), &ad, &Nonce::Lib)?;
+                    let (c, f) = ops::verify::<V>(&pk, &t, &ad)?;
+                    Ok(c == msg && f == ft)
+                }
+            });
+            match r {
+                Ok(Ok(true)) => o.class("roundtrip-ok"),
+                other => o.violate_env(format!("{name}/long-footers/roundtrip"), format!("a token with a {len}-byte {} does not come back through its string form: {:?}", if footer_long { "footer" } else { "assertion" }, other.map(|r| r.map_err(|e| err_kind(&e)))), json!({})),
+            }
+            o
+        })
+        .witness(&["roundtrip-ok"]),
+    );
+}
+
 /// typed footers through the string form: what was sealed is what is authenticated, whatever the footer type's
 /// decoder makes of it afterwards
 fn typed_footers<V: crate::backends::Full>(prop: &mut Property) {
@@ -456,6 +504,12 @@ pub fn build(ctx: &Ctx) -> Property {
     add::<crate::backends::V3L>(&mut p, ctx);
     add::<crate::backends::V4>(&mut p, ctx);
     add::<crate::backends::V4S>(&mut p, ctx);
+    long_footers::<crate::backends::V1>(&mut p);
+    long_footers::<crate::backends::V2>(&mut p);
+    long_footers::<crate::backends::V3>(&mut p);
+    long_footers::<crate::backends::V3L>(&mut p);
+    long_footers::<crate::backends::V4>(&mut p);
+    long_footers::<crate::backends::V4S>(&mut p);
     typed_footers::<crate::backends::V1>(&mut p);
     typed_footers::<crate::backends::V2>(&mut p);
     typed_footers::<crate::backends::V3>(&mut p);
